@@ -473,6 +473,9 @@ func (c *V1) Do(op Op) (out Outcome) {
 					KeySchema:  v1KeySchema(ch.Create.Hash, ch.Create.Range),
 					Projection: v1Projection(*ch.Create), ProvisionedThroughput: v1Throughput()}
 			}
+			if ch.DeleteUnnamed {
+				u.Delete = &v1ddb.DeleteGlobalSecondaryIndexAction{}
+			}
 			if ch.Delete != "" {
 				u.Delete = &v1ddb.DeleteGlobalSecondaryIndexAction{IndexName: aws.String(ch.Delete)}
 			}
